@@ -49,6 +49,20 @@ def check_partial(case):
             return pickle.loads(pickle.dumps(assign))
         return dict(assign)
 
+    # the per-gate truth tables are evaluations under total assignments: no Undefined, and the reference value
+    try:
+        per_gate = c.get_gates_truth_table()
+    except AttributeError:
+        per_gate = None
+    if per_gate is not None:
+        for lab in labs:
+            col = per_gate.get(lab)
+            if col is None:
+                raise Violation('missing_gate', f'get_gates_truth_table: gate {lab} missing')
+            for j, v in enumerate(col):
+                if v is not bool((t[lab] >> j) & 1):
+                    raise Violation('undefined_on_total' if not (v is True or v is False) else 'unsound',
+                                    f'get_gates_truth_table: gate {lab} ({typ[lab]}) row {j}: {v!r}')
     for p in itertools.product((False, True, None), repeat=n):
         assign = {}
         cube = mask
